@@ -31,6 +31,8 @@ package chain
 //@   ensures forall x Address :: (x in result) <==> (exists i int :: 0 <= i && i < len(a) && a[i] == x)
 //@   ensures forall i int :: 0 <= i && i < len(a) ==> a[i] in result
 //@   ensures len(a) >= 1 ==> a[0] in result
+//@   ensures forall x Address :: (x in result) ==> result[x]
+//@   loop 1 invariant forall x Address :: (x in set) ==> set[x]
 //@   loop 1 invariant forall x Address :: (x in set) <==> (exists i int :: 0 <= i && i < rangeidx1 && a[i] == x)
 
 //@ spec func addrOfKey(s ref, key []byte) Address
